@@ -156,6 +156,11 @@ def coq_make(targets=None, timeout=1500, clean=False):
         listing = '\n'.join(files)
         lf = os.path.join(CACHE, 'coqfiles.txt')
         if clean or not os.path.exists(os.path.join(COQ, 'Makefile')) or not os.path.exists(lf) or open(lf).read() != listing:
+            for stale in ('.Makefile.d', 'Makefile.conf'):
+                try:
+                    os.remove(os.path.join(COQ, stale))
+                except OSError:
+                    pass
             rc, o, e = sh(['coq_makefile', '-f', '_CoqProject', '-o', 'Makefile'] + files, cwd=COQ, timeout=120)
             if rc != 0:
                 return False, 'coq_makefile: ' + e
